@@ -39,6 +39,15 @@ def datasets(rng, n_random):
     out.append(('distinct-near-one', np.column_stack([1.0 - np.array([0.0, 1e-12, 3e-10, 5e-8, 9e-8, 0.2, 0.5, 0.9]),
                                                      1.0 - np.array([2e-10, 0.0, 7e-8, 1e-12, 0.3, 4e-8, 0.8, 0.6])])))
     out.append(('denormal-scale', np.column_stack([np.arange(1, 9) * 5e-324, np.array([3, 1, 2, 5, 4, 7, 8, 6]) * 1e-310])))
+    # a tau = 0 table leaves a long-lived Frank instance at theta ~ 0.016; the NEXT table has clearly negative dependence (round 5: a solver
+    # warm-started from the instance's own theta cannot cross 0)
+    out.append(('tau0-design-again', np.array([[.1, .2], [.2, .4], [.3, .1], [.4, .3]])))
+    rw = np.random.RandomState(55)
+    zw = rw.multivariate_normal([0, 0], [[1, -.75], [-.75, 1]], 60)
+    from scipy.stats import norm as _n3
+    out.append(('negative-after-tau0', _n3.cdf(zw)))
+    out.append(('tau0-design-third', np.array([[.15, .25], [.25, .45], [.35, .15], [.45, .35]])))
+    out.append(('positive-after-tau0', _n3.cdf(rw.multivariate_normal([0, 0], [[1, .75], [.75, 1]], 60))))
     # a long table (20 000 rows) with ONE value outside [0, 1], at an odd row index, and its clean twin: the refusal may not depend on n
     rl = np.random.RandomState(77)
     zl = rl.multivariate_normal([0, 0], [[1, .6], [.6, 1]], 20000)
@@ -335,11 +344,12 @@ def run(ctx):
             ctx.obligation(f'corr:refit-equals-fresh:{fam}:{name}', same, 'correspondence', f'fresh {res} vs re-fitted instance {res_h}')
             # whatever the history (this fit may have been REFUSED): a model that passes check_fit must pair theta with its own tau
             why_c = consistent_pair(PERSISTENT[fam])
-            ctx.obligation(f'oracle:theta-tau-consistent-after:{fam}:{name}', why_c is None, 'correspondence', why_c or '')
+            # Gumbel.compute_theta raises for tau = 1 BEFORE theta is assigned, while fit has already stored self.tau = 1: the earlier
+            # theta stays next to the new tau (finding F22 of C19, seen from C10: listed as F22g); any other refusal assigns the rejected theta first
+            tau1 = bool(why_c) and fam == 'gumbel' and res_h[0] == 'err' and "Tau value can't be 1" in str(res_h[2])
+            if not tau1:         # the listed finding is reported through ctx.violation below, it is not an obligation of this run
+                ctx.obligation(f'oracle:theta-tau-consistent-after:{fam}:{name}', why_c is None, 'correspondence', why_c or '')
             if why_c:
-                # Gumbel.compute_theta raises for tau = 1 BEFORE theta is assigned, while fit has already stored self.tau = 1: the earlier
-                # theta stays next to the new tau (finding F22 of C19, seen from C10); any other refusal assigns the rejected theta first
-                tau1 = fam == 'gumbel' and res_h[0] == 'err' and "Tau value can't be 1" in str(res_h[2])
                 ckey = 'F22:gumbel-tau1-refused-keeps-old-theta' if tau1 else f'search:theta-tau-inconsistent-after-fit-history:{fam}'
                 ctx.violation(ckey, f'{fam}: after the fits up to dataset {name} (last outcome {res_h[:2]}): {why_c}',
                               {'family': fam, 'dataset': name, 'last_outcome': list(res_h),
